@@ -211,7 +211,7 @@ def work(task):
                 variants.append(("layout:parens", render(node, parens=True), True, False))
                 for st in (1, 2):
                     variants.append(("spelling:int%d" % st, render(node, intstyle=st), True, False))
-                for st in (1, 2, 3, 4):
+                for st in (1, 2, 3, 4, 5, 6):
                     variants.append(("spelling:esc%d" % st, render(node, escstyle=st), True, False))
                 variants.append(("string:split", render(node, split=lambda j: rnd.random() < 0.5,
                                                         splitws=rnd.choice([" ", "", "\n", "\t \n"])), True, False))
@@ -347,7 +347,7 @@ def main(tier, seed):
     ev.extra["programs"] = n
     need = ["rewrite:E?=(E,)", "rewrite:if=alt", "rewrite:?(E)=([E]!=[])", "rewrite:infix=?(let)", "rewrite:raw-string",
             "rewrite:raw-string-backslash", "rewrite:raw-string-percent", "rewrite:raw-string-splice", "rewrite:raw-string-mixed",
-            "simplify:fired", "stacked-postfix-operators", "dwarf-values:%d", "dwarf-values:%x", "spelling:esc4", "string:split", "sugar:off", "layout:ws4", "layout:nops0", "layout:nops1"]
+            "simplify:fired", "stacked-postfix-operators", "dwarf-values:%d", "dwarf-values:%x", "spelling:esc4", "spelling:esc5", "spelling:esc6", "string:split", "sugar:off", "layout:ws4", "layout:nops0", "layout:nops1"]
     return finish(PID, tier, seed, ev, RULE, t0,
                   assumptions=["equivalences as stated in doc/syntax.rst; ?(E) vs ([E] != []) only where E ends by pushing a value",
                                "string literals nested inside %( %) keep their backslashes and quotes (in every escape spelling); comments inside %( %) avoid brackets and quotes (known finding)"],
